@@ -193,14 +193,17 @@ def judge_collection(case):
                 with fake:
                     mc = mk()
                     ids = [r.message_id for r in mc.mos_readers]
+                    if case.get('shared'):
+                        # (the mutual order of the two documents is the source's: what the merge makes
+                        # of them - a refusal after completion included - is not compared)
+                        res[name] = (ids, '')
+                        continue
                     mc.merge(strict=False)
                     res[name] = (ids, str(mc))
             except Exception as e:
                 res[name] = (f'EXC {type(e).__name__}: {e}', '')
-    if case.get('shared'):
-        # two different documents share a messageID: their mutual order is whatever the source hands
-        # over, so only WHICH messages each constructor holds is compared, not the merged text
-        res = {k: (v[0], '') for k, v in res.items()}
+    # (case['shared']: two different documents share a messageID - only WHICH messages each constructor
+    # holds is compared, see above)
     if len({(str(v[0]), v[1]) for v in res.values()}) > 1:
         fails.append(Failure(PROP, 'C18|constructors-disagree',
                              f'from_strings / from_files / from_s3 over the same contents differ: '
